@@ -106,6 +106,8 @@ class Scn:
         }[sc["bounds"]]
         if rng_:
             con["var_range"] = rng_
+        if sc.get("resolution", 1) == 2:
+            opts["resolution_size"] = 2
         self.c, self.pool, self.amp = quiet(fac.new_config, opts, con or None)
         self.vm = self.amp.vm
         # background / efficiency as functions of floating parameters of the same VarsManager (scenario dimension
@@ -143,9 +145,19 @@ class Scn:
         if set(self.bounds) != set(rng_):
             raise tlc.MachineryError("bounds of the configuration not taken over: %s" % self.bounds)
         nd, nb, nm = (7 if self.cfit else 5), (0 if self.cfit else 2), 6
+        self.resolution = sc.get("resolution", 1)
+        self.ragged_batch = 3
+        if self.resolution == 2:
+            # every event = 2 consecutive weighted samples (`resolution_size: 2`); batches are multiples of 2
+            nd, nb = 2 * (5 if self.cfit else 4), (0 if self.cfit else 2 * 2)
+            self.ragged_batch = 4
         npool = fac.pool_size
         dw = np.array([rng.uniform(0.5, 1.5) for _ in range(nd)])
-        dw[rng.randrange(nd)] *= -0.5  # one negative data weight
+        if self.resolution == 2:
+            k = 2 * rng.randrange(nd // 2)
+            dw[k : k + 2] *= -0.5  # one event with negative weight
+        else:
+            dw[rng.randrange(nd)] *= -0.5  # one negative data weight
         mv = np.array([rng.uniform(0.5, 1.5) for _ in range(nm)])
         ex_d, ex_m = {}, {}
         if self.cfit:
@@ -372,7 +384,7 @@ def run(ctx):
 
     # ---------------------------------------------------------------- replay
     # stratified: every kind; every bound kind, floating set, constraint kind at least once
-    budget = 9 if quick else 40
+    budget = 6 if quick else 42
     chosen = choose(scenarios, rng, budget, quick)
     npoints = 1 if quick else 2
     stats = {"scenarios": 0, "points": 0, "fd_checks": 0, "ill_conditioned": 0, "identities": 0, "max_fd_rel": 0.0}
@@ -397,11 +409,15 @@ def run(ctx):
     ctx.assume("finite differences: steps 4e-4 and 2e-4 times the parameter scale, agreement 1e-5 relative / 1e-7 absolute, ill-conditioned points discarded and counted")
 
 
-SLOW = {"cached_amp": (0, 2), "cached_int": (1, 4), "cfit_cached": (1, 4)}  # tf.function tracing: 10-100 s per first call; (quick, thorough) scenarios
+SLOW = {"cached_amp": (0, 2), "cached_int": (0, 4), "cfit_cached": (1, 4)}  # tf.function tracing: 10-100 s per first call; (quick, thorough) scenarios
 
 
 def choose(scenarios, rng, budget, quick):
     """stratified sample of the TLC scenario table: every feature value with several kinds, every kind"""
+    # every scenario is run as a call sequence (P0, P1, P0; directions d1, d2, d1): the first visit of a sequence
+    # is the "single" scenario with the same other entries
+    res2 = [s for s in scenarios if s["calls"] == "sequence" and s["resolution"] == 2]
+    scenarios = [s for s in scenarios if s["calls"] == "sequence" and s["resolution"] == 1]
     kinds = sorted(set(s["kind"] for s in scenarios))
     fast = [k for k in kinds if k not in SLOW]
     pools = {k: [s for s in scenarios if s["kind"] == k] for k in kinds}
@@ -421,15 +437,18 @@ def choose(scenarios, rng, budget, quick):
         cand = sorted([s for s in pools.get(k, []) if s["batch"] == "single"], key=lambda s: -richness(s))
         chosen += cand[: (nq if quick else nt)]
     # always: an extended cfit model with ragged batches (the batch-size clause on the model that once raised there)
-    cand = sorted([s for s in pools.get("cfit_ext", []) if s["batch"] == "ragged" and s["shape"] == "columns"], key=lambda s: -richness(s))
+    # (quick tier: combined with a background function of a floating parameter, see below)
+    cand = sorted([s for s in pools.get("cfit_ext", []) if s["batch"] == "ragged" and s["shape"] == ("bg_param" if quick else "columns") and s["floating"] == "couplings"],
+                  key=lambda s: (-richness(s), json.dumps(s, sort_keys=True)))
     chosen += cand[:1]
     # always: background and efficiency functions of floating parameters (I_bg, I_sig with curvature) for cfit and
     # extended cfit; one batch, couplings floating (quick: two scenarios, thorough: every shape for both kinds, twice)
-    wanted = [("cfit", "bg_eff_param"), ("cfit_ext", "bg_param")]
+    wanted = [("cfit", "bg_eff_param")]
     if not quick:
+        wanted += [("cfit_ext", "bg_param")]
         wanted += [(k, sh) for k in ("cfit", "cfit_ext") for sh in ("bg_param", "eff_param", "bg_eff_param")]
     for n_, (k, sh) in enumerate(wanted):
-        cand = [s for s in pools[k] if s["shape"] == sh and s["floating"] == "couplings" and s not in chosen and (s["batch"] == "single" or n_ >= 2)]
+        cand = [s for s in pools[k] if s["shape"] == sh and s["floating"] == "couplings" and s not in chosen and (s["batch"] == "single" or n_ >= 2 or quick)]
         cand.sort(key=lambda s: (-richness(s) if n_ % 2 else richness(s), json.dumps(s, sort_keys=True)))
         chosen += cand[:1]
     # always: the registered custom models beyond simple / simple_cfit, with ragged batches (their NLL parts carry
@@ -438,8 +457,16 @@ def choose(scenarios, rng, budget, quick):
         cand = sorted([s for s in pools.get(k, []) if s["batch"] == "ragged" and s["floating"] == "couplings" and s["bounds"] == "none"],
                       key=lambda s: (-richness(s), json.dumps(s, sort_keys=True)))
         chosen += cand[:1]
+    # always: a detector-resolution model (resolution_size 2) for cfit (quick) and default, extended (thorough),
+    # with batches that split the sample
+    for k in (("cfit",) if quick else ("cfit", "default", "extended", "cfit")):
+        cand = sorted([s for s in res2 if s["kind"] == k and s["batch"] == "ragged" and s["floating"] == "couplings" and s not in chosen],
+                      key=lambda s: (-richness(s), json.dumps(s, sort_keys=True)))
+        chosen += cand[:1]
     for k in pools:
         pools[k] = [s for s in pools[k] if s["shape"] == "columns" or s in chosen]
+    # kinds not yet present come first in the rotation
+    fast = sorted(fast, key=lambda k: any(c["kind"] == k for c in chosen))
     for k in ("constr_frac", "cfit_constr_frac", "simple_clip", "simple_chi2"):
         fast = [x for x in fast if x != k]
     ki = 0
@@ -464,7 +491,7 @@ def choose(scenarios, rng, budget, quick):
 
 
 def sc_tag(sc):
-    return "%s|%s|%s|%s|%s|%s|%s" % (sc["kind"], sc["floating"], sc["bounds"], sc["share"], sc["constr"], sc["batch"], sc.get("shape", "columns"))
+    return "%s|%s|%s|%s|%s|%s|%s|res%s" % (sc["kind"], sc["floating"], sc["bounds"], sc["share"], sc["constr"], sc["batch"], sc.get("shape", "columns"), sc.get("resolution", 1))
 
 
 def check_scenario(ctx, fac, sc, rng, npoints, v, stats, quick, with_eff):
@@ -502,6 +529,7 @@ def check_scenario(ctx, fac, sc, rng, npoints, v, stats, quick, with_eff):
                 hc[tied_idx] += 1 / sg**2
     sampled = False
     hessp_done = False
+    visit0 = None
     for pt in range(npoints):
         x = x_start + np.array([rng.gauss(0, 0.25) for _ in range(n)]) * s.scale
         stats["points"] += 1
@@ -589,7 +617,8 @@ def check_scenario(ctx, fac, sc, rng, npoints, v, stats, quick, with_eff):
             if hh.shape != (n, n) or not ident_ok(hh, hh.T, float(np.max(np.abs(hh))) + 1e-9):
                 report("nll_grad_hessian", "Hessian not a symmetric n x n matrix", "shape", {"shape": list(hh.shape)})
                 hess_exc = True
-        for d in dirs[: (1 if quick else 3)]:
+        first = None  # (direction, hessp) of the first grad_hessp call at this point
+        for d in dirs[: (2 if quick else 3)]:
             ext, well = richardson_adaptive(grad, x, d, 0.0)
             sc_h = float(np.max(np.abs(ext))) + 1e-9
             if not well:
@@ -623,6 +652,8 @@ def check_scenario(ctx, fac, sc, rng, npoints, v, stats, quick, with_eff):
             stats["fd_checks"] += 1
             stats["identities"] += 1
             ctx.count(2, distinct_key=(tag, "grad_hessp"))
+            if first is None:
+                first = (d, hp)
             good_g = ident_ok(ghp, g1, float(np.max(np.abs(g1))) + 1e-9)
             good_h = fd_ok(hp, ext, sc_h)
             if good_g and good_h:
@@ -630,7 +661,7 @@ def check_scenario(ctx, fac, sc, rng, npoints, v, stats, quick, with_eff):
                 continue
             if cfit_family and v["cfith"] == "inherited":
                 # is it the default model's formula?  (same amplitude object, same samples, same weights and w_bkg)
-                fdflt = quiet(FCN, Model(s.amp, 0.4), s.data, s.phsp, bg=s.bg, batch=65000, gauss_constr=dict(s.c.gauss_constr_dic))
+                fdflt = quiet(FCN, Model(s.amp, 0.4, resolution_size=s.resolution), s.data, s.phsp, bg=s.bg, batch=65000, gauss_constr=dict(s.c.gauss_constr_dic))
                 gd_, hd_ = quiet(vm.trans_grad_hessp(fdflt.grad_hessp), x, d)
                 if ident_ok(ghp, gd_, float(np.max(np.abs(ghp))) + 1e-9) and ident_ok(hp, hd_, float(np.max(np.abs(hp))) + 1e-9):
                     ctx.violation("%s:grad_hessp:default_model_formula" % kind, {"scenario": sc, "gradient_from_grad_hessp": ghp.tolist(), "nll_grad": g1.tolist(), "hessp": hp.tolist(), "fd": ext.tolist()})
@@ -641,9 +672,22 @@ def check_scenario(ctx, fac, sc, rng, npoints, v, stats, quick, with_eff):
             report("grad_hessp", "gradient / Hessian-vector product not the derivatives of the reported NLL", "hessp" if good_g else "gradient",
                    {"hessp": hp.tolist(), "fd": ext.tolist(), "gradient": ghp.tolist(), "nll_grad": g1.tolist(), "direction": d.tolist()})
             break
+        # ---- the first direction once more, on the same object, after other directions
+        if first is not None:
+            try:
+                _, hp_again = quiet(f_hp, x, first[0])
+                stats["identities"] += 1
+                ctx.count(1, distinct_key=(tag, "grad_hessp:repeat"))
+                if not ident_ok(np.array(hp_again, dtype=float), first[1], float(np.max(np.abs(first[1]))) + 1e-9):
+                    report("grad_hessp", "the same direction gives another product after calls with other directions", "call_sequence",
+                           {"first_call": first[1].tolist(), "repeated": np.array(hp_again, dtype=float).tolist()})
+            except Exception as e:  # noqa: BLE001
+                report("grad_hessp", "raises", "raise", {"error": repr(e)[:1500]})
+        if pt == 0:
+            visit0 = dict(x=x.copy(), v=float(v1), g=g1.copy(), h=(hh.copy() if hess_exc is None else None), first=first, dirs=dirs)
         # ---- independence of the batch size (ragged batches against one batch)
         if sc["batch"] == "ragged" and pt == 0:
-            fr = s.fcn(3)
+            fr = s.fcn(s.ragged_batch)
             y = s.y_of_x(x)
             try:
                 a = quiet(fr.nll_grad, y)
@@ -677,6 +721,60 @@ def check_scenario(ctx, fac, sc, rng, npoints, v, stats, quick, with_eff):
         if not sampled:
             ctx.sample({"scenario": sc, "parameters": s.names, "x": x.tolist(), "nll": v0, "gradient": g1.tolist(), "bounds": {k: list(b) for k, b in s.bounds.items()}})
             sampled = True
+    if visit0 is None:
+        return
+    skip_hp = kind == "cached_amp" and not hessp_done
+    hp_known_wrong = cfit_family and v["cfith"] == "inherited"
+    scale_g = float(np.max(np.abs(visit0["g"]))) + 1e-9
+
+    def key_report(observer, what, tail, detail):
+        ctx.violation("%s:%s:%s" % (kind, observer, tail), dict(detail, scenario=sc, what=what, parameters=s.names))
+
+    # ---- call sequence P0, P1, P0 on the same object
+    try:
+        if npoints == 1:
+            # quick tier: the second point is visited without finite differences (identities between the calls)
+            x1 = x_start + np.array([rng.gauss(0, 0.25) for _ in range(n)]) * s.scale
+            d2 = visit0["dirs"][1]
+            a0 = float(quiet(fcn, s.y_of_x(x1)))
+            a1, ag = quiet(f_g, x1)
+            ah = quiet(f_gh, x1)
+            stats["identities"] += 3
+            ctx.count(3, distinct_key=(tag, "sequence:P1"))
+            ns = abs(a0) + 1.0
+            if not ident_ok(float(a1), a0, ns) or not ident_ok(float(ah[0]), a0, ns):
+                key_report("nll_grad_hessian", "values of the three calls differ at the second point", "sequence:value", {"fcn": a0, "nll_grad": float(a1), "nll_grad_hessian": float(ah[0])})
+            if not ident_ok(np.array(ah[1], dtype=float), np.array(ag, dtype=float), float(np.max(np.abs(np.array(ag, dtype=float)))) + 1e-9):
+                key_report("nll_grad_hessian", "gradients of nll_grad and nll_grad_hessian differ at the second point", "sequence:gradient", {})
+            if not skip_hp:
+                _, ahp = quiet(f_hp, x1, d2)
+                hd2 = np.array(ah[2], dtype=float) @ d2
+                stats["identities"] += 1
+                ctx.count(1)
+                if not hp_known_wrong and not (np.any(hc) and v["hessp"] == "zero") and not ident_ok(np.array(ahp, dtype=float), hd2, float(np.max(np.abs(hd2))) * 1e2 + 1e-9):
+                    key_report("grad_hessp", "Hessian-vector product differs from Hessian times vector at the second point", "sequence:hessp", {"hessp": np.array(ahp, dtype=float).tolist(), "H.d": hd2.tolist()})
+        # back at the first point: everything as at the first visit
+        x0 = visit0["x"]
+        b1, bg_ = quiet(f_g, x0)
+        stats["identities"] += 2
+        ctx.count(2, distinct_key=(tag, "sequence:P0_again"))
+        if not ident_ok(float(b1), visit0["v"], abs(visit0["v"]) + 1.0) or not ident_ok(np.array(bg_, dtype=float), visit0["g"], scale_g):
+            key_report("nll_grad", "value / gradient at the first point differ after a visit of another point", "sequence:revisit", {"first": visit0["v"], "again": float(b1)})
+        if visit0["h"] is not None:
+            bh = quiet(f_gh, x0)
+            stats["identities"] += 1
+            ctx.count(1)
+            if not ident_ok(np.array(bh[2], dtype=float), visit0["h"], float(np.max(np.abs(visit0["h"]))) + 1e-9):
+                key_report("nll_grad_hessian", "Hessian at the first point differs after a visit of another point", "sequence:revisit", {})
+        if visit0["first"] is not None and not skip_hp:
+            _, bhp = quiet(f_hp, x0, visit0["first"][0])
+            stats["identities"] += 1
+            ctx.count(1)
+            if not ident_ok(np.array(bhp, dtype=float), visit0["first"][1], float(np.max(np.abs(visit0["first"][1]))) + 1e-9):
+                key_report("grad_hessp", "Hessian-vector product at the first point differs after a visit of another point", "sequence:revisit",
+                           {"first": visit0["first"][1].tolist(), "again": np.array(bhp, dtype=float).tolist()})
+    except Exception as e:  # noqa: BLE001
+        key_report("nll_grad", "raises during the call sequence P0, P1, P0", "sequence:raise", {"error": repr(e)[:1500]})
 
 
 def only(vec, idx):
